@@ -179,6 +179,17 @@ PROPS = {
         "not_decided": ["interleavings of FileId::new across threads (atomicity of AtomicU64::fetch_add assumed; Kani has no threads)",
                         "concurrent parse/validate/introspect equivalence (schedules)"],
     },
+    "C33": {
+        "level": "proof",
+        "verus": ["smith_response", "execution"],
+        "explanation": "KERNEL ONLY: ResponseBuilder::type_condition_matches, the test that decides which fragments contribute response keys for the chosen concrete object type. Verus proves on the extracted body, for every schema, "
+                       "object type and type condition, that it equals the spec's DoesFragmentTypeApply -- the same specification function (shared text) against which the executor's does_fragment_type_apply is proved (unit execution, C26): "
+                       "the generator and the executor agree on which fragments apply.",
+        "assumptions": ["Name equality is equality of the text; IndexMap / IndexSet lookups by text (shims of unit execution); `concrete` names an object type stored under its own name (what concrete_type hands over: precondition)",
+                        "listed rewrite: `members.iter().any(|m| m.name == *concrete)` -> `members.contains(concrete)`"],
+        "not_decided": ["everything else of C33: collect_fields / selection_set / generate_field_value (response keys, list nesting, null positions, enum values, scalars of the right JSON kind), concrete_type's choice, "
+                        "and that executing the operation against the generated data reproduces it (needs the executor: C26's undecided main clause)"],
+    },
     "C10": {
         "level": "proof",
         "verus": ["name", "numbers"],
